@@ -176,10 +176,10 @@ func isEOF(err error) bool {
 	return err != nil && (errors.Is(err, io.EOF) || errors.Is(err, io.ErrUnexpectedEOF) || strings.Contains(err.Error(), "EOF"))
 }
 
-// standalone encoding of one value with a fresh Encoder.  Pointers are followed first: inside a container a
-// *T is written as its T, whereas a top-level Encode(&x) of a pointer to a nil []byte under
-// NilCollectionToZeroLength writes an empty ARRAY (encodeValue's nil-slice branch) where every other path writes
-// an empty byte string - the expected bytes of a FIELD must not be computed through that top-level branch.
+// standalone encoding of a FIELD value with a fresh Encoder.  Pointers are followed first: inside a container a
+// *T is written as its T.  (Before F05-7 a top-level Encode(&x) of a pointer to a nil []byte under
+// NilCollectionToZeroLength wrote an empty array where the other paths wrote empty bytes; the expected bytes of a
+// field are therefore never computed through the top-level pointer branch.)
 func encodeField(h codec.Handle, v reflect.Value) ([]byte, error) {
 	for v.Kind() == reflect.Ptr && !v.IsNil() {
 		v = v.Elem()
